@@ -665,7 +665,7 @@ func (m *mexec) apply(s *stmt) error {
 		}
 		if m.o.deferSelf {
 			for _, f := range m.sc.fks {
-				if !f.self() {
+				if !f.self() || f.child != s.t {
 					continue
 				}
 				for _, c := range m.live(f.child) {
